@@ -491,3 +491,13 @@ def oob_mean_guarded(ck, prog):
 def run(ck, prog):
     _run_pre_oobdiv(ck, prog)
     oob_mean_guarded(ck, prog)
+
+
+# ------------------------------------------------------------------ generic: `while counter < bound` loops advance their counter
+_run_pre_progress = run
+
+
+def run(ck, prog):
+    _run_pre_progress(ck, prog)
+    from sa import progress
+    progress.run_rule(ck, prog, set(DIMENSION_FILES))
